@@ -406,14 +406,15 @@ def serveConnection (N : Net Addr Prefix) (cfg : Cfg Prefix) (c : Conn) (reqs : 
 
 /-! ### templates' `httpInclude` (templates/tplcontext.go `funcHTTPInclude`): the virtual sub-request -/
 
-/-- `virtReq.RemoteAddr = "127.0.0.1:10000"` -/
+/-- the dummy address `"127.0.0.1:10000"` a virtual request gets when the outer request has none -/
 def virtualRemote : Bytes := [49, 50, 55, 46, 48, 46, 48, 46, 49, 58, 49, 48, 48, 48, 48]
 
-/-- the virtual request goes through `server.ServeHTTP` → `PrepareRequest` like any other: it has the
-    dummy remote address and `virtReq.Header = c.Req.Header.Clone()`, a CLONE of the outer request's header
-    (plus Accept-Encoding and the recursion counter, which no modelled function reads) -/
+/-- the virtual request goes through `server.ServeHTTP` → `PrepareRequest` like any other, with
+    `virtReq.Header = c.Req.Header.Clone()` (plus Accept-Encoding and the recursion counter, which no modelled
+    function reads) and the OUTER request's remote address — `virtReq.RemoteAddr = c.Req.RemoteAddr`, the
+    dummy loopback address only if that is empty -/
 def serveInclude (N : Net Addr Prefix) (cfg : Cfg Prefix) (c : Conn) (wire : List (Bytes × Bytes)) : Out :=
-  serve N cfg { c with remoteAddr := virtualRemote } wire
+  serve N cfg { c with remoteAddr := if c.remoteAddr.isEmpty then virtualRemote else c.remoteAddr } wire
 
 /-! ### the FastCGI transport (reverseproxy/fastcgi/fastcgi.go `buildEnv`, what php_fastcgi configures):
 what the application is told about the client -/
